@@ -95,6 +95,14 @@ func InstallTrace(e types.EnvType, t *Tracer) {
 		t.Add(canon.FromGo(a[0]))
 		return a[0], nil
 	})
+	// (trace-then-fail! x): records x like trace!, then fails with a Go error (a builtin that has its effect and fails)
+	setFn(e, "trace-then-fail!", func(_ context.Context, a []types.MalType) (types.MalType, error) {
+		if len(a) != 1 {
+			return nil, fmt.Errorf("trace-then-fail!: wrong number of arguments (%d instead of 1)", len(a))
+		}
+		t.Add(canon.FromGo(a[0]))
+		return nil, ErrSentinel
+	})
 }
 
 // Outcome of one guarded evaluation.
